@@ -68,6 +68,12 @@ def faults(tag, base, info):
     add("missing-derivative", base.replace(f"{D} = {DR}\n", ""), name=D)
     add("orphan-derivative", base + "dqq_dt = 1\n", name="dqq_dt")
     add("extra-state-without-derivative", base + "states(lonely=1.0)\n", name="lonely")
+    add("orphan-derivative/stateless-component", base + 'expressions("Stateless")\ndqq_dt = 1\n', name="dqq_dt")
+    add("orphan-derivative/stateless-component-with-parameter", base + 'parameters("Stateless2", pp=1.0)\nexpressions("Stateless2")\ndqq_dt = pp\n', name="dqq_dt")
+    # history: a well-formed text with a function call is loaded first, then the same call with its symbol undefined
+    good = base + f"parameters(vh_=1.5)\nhist1 = exp((vh_ - {S})/2) + Conditional(Gt(vh_, {S}), 1, 2)\n"
+    bad = base + f"hist1 = exp((vh_ - {S})/2) + Conditional(Gt(vh_, {S}), 1, 2)\n"
+    add("undefined-symbol/inside-call-after-good-load", bad, name="vh_", preload=good)
     # undefined symbol
     add("undefined-symbol/intermediate", base + f"und1 = {S}*nowhere\n", name="nowhere")
     add("undefined-symbol/derivative", base.replace(f"{D} = {DR}\n", f"{D} = {DR} + nowhere\n"), name="nowhere")
@@ -116,6 +122,11 @@ def work(task):
     prog.nontrivial = genuinely_ill
     stage = None
     ode = None
+    if o.get("preload"):
+        try:
+            pipeline.gen_py(pipeline.load(o["preload"]))   # earlier history in the same process
+        except Exception as e:
+            prog.skip("preload", f"well-formed preload text rejected: {e}")
     try:
         ode = pipeline.load(text)
     except Exception as e:
